@@ -227,7 +227,13 @@ func Check(d Driver, o CheckOpts) int {
 		if f, ok := d.(interface{ Finalize(Case) }); ok {
 			f.Finalize(c)
 		}
-		rp := Replay{Property: d.ID(), Seed: o.Seed, Run: v.Run, Class: oc.Class, Detail: oc.Detail, Culprits: oc.Culprits, Shrunk: steps, Case: json.RawMessage(MarshalCase(c))}
+		conf := 0
+		for i := 0; i < 3; i++ {
+			if r := m.evalChildTimeout(c, 120*time.Second); r.Class == oc.Class {
+				conf++
+			}
+		}
+		rp := Replay{Property: d.ID(), Seed: o.Seed, Run: v.Run, Class: oc.Class, Detail: oc.Detail, Culprits: oc.Culprits, Shrunk: steps, Confirmed: fmt.Sprintf("%d of 3 fresh processes", conf), Case: json.RawMessage(MarshalCase(c))}
 		name := fmt.Sprintf("%s-%d-%d.json", d.ID(), o.Seed, v.Run)
 		if v.Run < 0 {
 			name = fmt.Sprintf("%s-%d-known%d.json", d.ID(), o.Seed, ci)
@@ -238,6 +244,9 @@ func Check(d Driver, o CheckOpts) int {
 			m.trouble = append(m.trouble, err.Error())
 		}
 		fmt.Printf("violation class=%s run=%d shrink_steps=%d\n%s\n", oc.Class, v.Run, steps, indentText(oc.Detail))
+		if conf < 3 {
+			fmt.Printf("note: the minimised case failed in %d of 3 fresh processes: the tree under test behaves nondeterministically beyond the simulated schedule; the replay file may need several attempts\n", conf)
+		}
 		fmt.Printf("VIOLATION property=%s replay=%s\n", d.ID(), path)
 		reported++
 	}
